@@ -174,6 +174,58 @@ def make_cache(oid, which, n_calls=2, tiers=("quick", "thorough"), same_config=F
                       functions=FUNCS, bounds=f"{n_calls} calls x 3 element kinds x 2 coordinate systems x 2 metrics x reconstruct", stubs=STUBS, tiers=tiers, max_paths=20000)
 
 
+def make_reconstruct(oid, which):
+    """tree requested, the grid's face centres replaced through the public setters, tree requested again with reconstruct=True (what remapping does):
+    the tree handed back holds the CURRENT centres"""
+    NEW_LON, NEW_LAT = [33.0, -41.0], [12.0, -27.0]
+
+    def setup(ctx):
+        ctx.const("which", which)
+        return dict(system=ctx.enum("system", SYSTEMS), first_rec=ctx.bool("reconstruct_first"))
+
+    def steps(g, system, first_rec, DA, arr):
+        get = g.get_ball_tree if which == "ball" else g.get_kd_tree
+        metric = "haversine" if (which == "ball" and system == "spherical") else "minkowski"
+        get(coordinates="face centers", coordinate_system=system, distance_metric=metric, reconstruct=first_rec)
+        g.face_lon = DA(arr(NEW_LON), dims=["n_face"])
+        g.face_lat = DA(arr(NEW_LAT), dims=["n_face"])
+        if system == "cartesian":
+            k = math.pi / 180
+            xyz = [[math.cos(la * k) * math.cos(lo * k) for lo, la in zip(NEW_LON, NEW_LAT)], [math.cos(la * k) * math.sin(lo * k) for lo, la in zip(NEW_LON, NEW_LAT)],
+                   [math.sin(la * k) for la in NEW_LAT]]
+            g.face_x, g.face_y, g.face_z = (DA(arr(c), dims=["n_face"]) for c in xyz)
+        return get(coordinates="face centers", coordinate_system=system, distance_metric=metric, reconstruct=True), metric
+
+    def run(ctx, inp):
+        undo = _install(world())
+        try:
+            g = _grid()
+            system = inp["system"].concrete()
+            t, metric = steps(g, system, bool(inp["first_rec"]), symxr.DataArray, lambda v: C.sarr_1d(v, symnp.float64))
+            ok, why = _tree_matches(t._current_tree(), g, "face centers", system, metric)
+            ctx.prove("after the face centres were replaced, a reconstruct=True request hands back a tree built from the current centres", ok, note=why)
+        finally:
+            undo()
+
+    def replay(v):
+        import xarray as xr
+        g = C.real_grid(ROWS, *C.default_lonlat(N_NODE))
+        system = SYSTEMS[int(v["system"])]
+        t, metric = steps(g, system, bool(v["reconstruct_first"]), xr.DataArray, lambda x: np.array(x, dtype=float))
+        data = np.asarray(t._current_tree().data)
+        if system == "cartesian":
+            exp = np.stack([g.face_x.values, g.face_y.values, g.face_z.values], axis=-1)
+        else:
+            exp = np.vstack([np.deg2rad(g.face_lat.values), np.deg2rad(g.face_lon.values)]).T
+        if data.shape != exp.shape or not np.allclose(data, exp):
+            return (f"get_{which}_tree('face centers', {system}, reconstruct=True) after the face centres were set to lon {NEW_LON} lat {NEW_LAT}: the tree still holds {data.tolist()}, "
+                    f"the grid's centres are {exp.tolist()} (nearest-neighbour queries and remapping use stale positions)")
+        return None
+
+    return Obligation(oid, f"get_{which}_tree: reconstruct=True after the face centres changed", setup, run, replay, exact=True, functions=FUNCS + ["Grid.face_lon/face_lat/face_x/y/z setters"],
+                      bounds="2 faces; coordinate system and the first call's reconstruct flag symbolic; new centres fixed", stubs=STUBS)
+
+
 # ------------------------------------------------------------------ query data flow
 def make_query(oid, which, system, metric, batched, in_radians, op, tiers=("quick", "thorough")):
     nq = {False: 1, True: 2}.get(batched, batched)      # batched may also be a number of query points (3: a 3x3 Cartesian batch)
@@ -364,6 +416,7 @@ def obligations(tier):
                 tag = f"{which}.{system[:3]}.{'batch' if batched else 'single'}.{'rad' if rad else 'deg'}"
                 obs.append(make_query(f"C11.query.{tag}", which, system, metric, batched, rad, "query"))
                 obs.append(make_query(f"C11.radius.{tag}", which, system, metric, batched, rad, "radius"))
+    obs += [make_reconstruct("C11.cache.ball.reconstruct_after_setter", "ball"), make_reconstruct("C11.cache.kd.reconstruct_after_setter", "kd")]
     obs += [make_query("C11.query.kd.car.batch3.deg", "kd", "cartesian", "minkowski", 3, False, "query"),
             make_query("C11.radius.ball.car.batch3.deg", "ball", "cartesian", "minkowski", 3, False, "radius")]
     return [o for o in obs if tier in o.tiers]
